@@ -112,6 +112,8 @@ pub struct SearchRecord {
     pub inherited_overshoot: Option<u64>,
     /// nodes the engine entered in this call before it armed the timer
     pub pre_nodes: u64,
+    /// the engine call (command / direct call) in which this timer was started
+    pub call_id: u64,
 }
 
 #[derive(Debug, Clone, Default)]
@@ -137,6 +139,8 @@ pub struct SimState {
     /// nodes entered since the engine was last handed control (a command read or a direct
     /// call): bounds work done outside any timed search as well (cap: 2x max_nodes_per_search)
     pub nodes_in_call: u64,
+    /// counts the times the engine was handed control (commands read, direct calls)
+    pub call_id: u64,
     pub max_nodes_after_deadline: u64,
     pub max_reads_per_search: u64,
     /// abort a clock-limited search that enters more nodes than this between two clock reads
@@ -186,6 +190,7 @@ impl SimState {
             searches: vec![],
             max_nodes_per_search: 20_000_000,
             nodes_in_call: 0,
+            call_id: 0,
             max_nodes_after_deadline: u64::MAX,
             max_reads_per_search: 400_000_000,
             max_poll_gap: u64::MAX,
@@ -370,6 +375,7 @@ impl Sim for World {
         let mut st = self.st.borrow_mut();
         st.call_boundary = true;
         st.nodes_in_call = 0;
+        st.call_id += 1;
         if st.input.is_empty() {
             if let Some(g) = self.gui.as_mut() {
                 g(&mut st);
@@ -459,7 +465,9 @@ impl Sim for World {
         let maxo = st.max_nodes_after_deadline;
         let maxgap = st.max_poll_gap;
         let mut abort: Option<Abort> = None;
-        if let Some(s) = st.searches.last_mut() {
+        let cur_call = st.call_id;
+        // nodes entered in a call that has not (yet) started a timer belong to no search
+        if let Some(s) = st.searches.last_mut().filter(|s| s.call_id == cur_call) {
             s.nodes += 1;
             if kind == seam::NODE_QUIESCENCE {
                 s.qnodes += 1;
@@ -510,6 +518,7 @@ impl Sim for World {
         let ordinal = st.searches.len() as u64;
         let out_line_at_start = st.out_lines.len();
         let pre_nodes = st.nodes_in_call;
+        let call_id_now = st.call_id;
         let inherited = match st.searches.last() {
             Some(prev) if !st.call_boundary && (prev.deadline_passed_at.is_some() || prev.inherited_overshoot.is_some()) => {
                 Some(prev.nodes_after_deadline)
@@ -547,6 +556,7 @@ impl Sim for World {
             max_poll_gap_seen: 0,
             inherited_overshoot: inherited,
             pre_nodes,
+            call_id: call_id_now,
         });
     }
 
@@ -703,6 +713,7 @@ impl Proc {
             let mut st = self.st.borrow_mut();
             st.call_boundary = true;
             st.nodes_in_call = 0;
+            st.call_id += 1;
         }
         let _guard = EngineCallGuard::enter();
         let was_in_sim = IN_SIM.with(|c| c.replace(true));
